@@ -74,6 +74,7 @@ def run_case(task):
         if 'libm_axioms' in ob: ex.libm_axioms = ob['libm_axioms']
         if 'libm_mono' in ob: ex.libm_mono = ob['libm_mono']
         if 'ackermann' in ob: ex.ackermann = ob['ackermann']
+        if 'div_as_mul' in ob: ex.div_as_mul = ob['div_as_mul']
         if ob.get('setup'): ob['setup'](ex)
         cap = ob.get('time_cap', 280 if tier == 'quick' else 2400)
         try:
